@@ -60,6 +60,7 @@ type outcome struct {
 	exit  int
 	err   string
 	files map[string]string // rel path -> sha256
+	sizes map[string]int    // rel path -> length
 	req   string            // sha256 of the plain request
 	reqz  string            // sha256 of the compressed request
 	norm  string            // sha256 of the request without Name2Category maps + those maps as sorted lines
@@ -218,7 +219,7 @@ func main() {
 		}
 		var buf bytes.Buffer
 		cmd.Stdout, cmd.Stderr = &buf, &buf
-		o := &outcome{files: map[string]string{}}
+		o := &outcome{files: map[string]string{}, sizes: map[string]int{}}
 		if err := cmd.Run(); err != nil {
 			o.exit = 1
 			o.err = buf.String()
@@ -235,6 +236,7 @@ func main() {
 				b, _ := os.ReadFile(p)
 				// the only place the output root may legitimately appear is nowhere: contents must not mention it
 				o.files[rel] = hash(bytes.ReplaceAll(b, []byte(out), []byte("<OUT>")))
+				o.sizes[rel] = len(b)
 			}
 			return nil
 		})
@@ -299,6 +301,18 @@ func main() {
 				run.Violate(evid.Violation{Class: "plugin-request:Name2Category-order", What: fmt.Sprintf("%s: two runs with the same iteration starts: %s", key, d), Replay: rp})
 			} else if d != "" {
 				run.Violate(evid.Violation{Class: "differs-without-any-map-deviation:" + c.name, What: fmt.Sprintf("%s: the same command with the same iteration starts, in another (populated) directory with GOMAXPROCS=16: %s", key, d), Replay: rp})
+				continue
+			}
+			// once more into a directory where every file already exists with exactly the length it is
+			// going to have, but other content (an earlier revision with renamed identifiers)
+			pop2 := map[string]string{}
+			for rel, n := range base.sizes {
+				pop2[rel] = strings.Repeat("#", n)
+			}
+			again2 := exec1(worker, dp, c, "-1,0,-1,0,0", 8, pop2, false)
+			run.Eval(key+"|baseline-over-same-length-files", true)
+			if d := again2.diff(base); d != "" && d != n2cOnly {
+				run.Violate(evid.Violation{Class: "differs-over-same-length-stale-files:" + c.name, What: fmt.Sprintf("%s: the same command into a directory whose files have the final lengths but other content: %s", key, d), Replay: rp})
 				continue
 			}
 			stable := len(base.iters) == len(again.iters)
